@@ -16,7 +16,7 @@ def r18_1(ctx):
     r.saw(pe["path"])
     # the closure mapping PropOrSpread -> Option<(key, value)>
     table = None
-    for n in walk(pe["body"]):
+    for n in walk(C.family_body(ctx, pe)):
         if n.get("k") == "Match" and any((x.get("adt") or "") == AST + "Prop" for a in n["arms"] for x in walk(a["pat"])):
             table = n
             break
@@ -74,7 +74,7 @@ def r18_2(ctx):
     if not pe:
         return r
     r.saw(pe["path"])
-    for n in walk(pe["body"]):
+    for n in walk(C.family_body(ctx, pe)):
         if n.get("k") == "If" and any(x.get("k") == "Struct" and x.get("adt") == AST + "ArrowExpr" for x in walk(n.get("else") or {})):
             cond = expr_str(n["cond"])
             # does the wrap decision — here, or where the default is attached to its prop — read the inferred types?
@@ -139,7 +139,7 @@ def r18_4(ctx):
         return r
     r.saw(pe["path"])
     n = 0
-    for x in walk(pe["body"]):
+    for x in walk(C.family_body(ctx, pe)):
         if x.get("k") == "Struct" and x.get("adt") == AST + "ArrowExpr":
             n += 1
             sp = {f["name"]: f["e"] for f in x["fields"]}.get("span")
@@ -180,7 +180,7 @@ def r18_3(ctx):
         r.saw(pe["path"])
         imp = C.role(ctx, "import_fn")
         found = False
-        for n in walk(pe["body"]):
+        for n in walk(C.family_body(ctx, pe)):
             if n.get("k") == "Struct" and n.get("adt") == AST + "CallExpr":
                 fs = {f["name"]: f["e"] for f in n["fields"]}
                 callee_l = [x for x in walk(fs.get("callee", {})) if x.get("k") == "Path" and x["res"].get("r") == "local"]
